@@ -30,7 +30,6 @@ from translate import severity as T
 PID = "C15"
 K_FIX = "wire-fixInvalidChars"
 K_TAB = "wire-tab-in-filename"
-K_DUP = "dup-text-global-suppression-unmatched"
 
 
 def sha(x):
@@ -462,11 +461,12 @@ def x2(run, quick):
 
 
 def witness_replays(run):
-    """the _refuted witnesses of parallel_eq_single, replayed on the binary"""
+    """the (former) witnesses of parallel_eq_single, replayed on the binary"""
     st = run.stream("witness replay on the binary")
     base = tempfile.mkdtemp(prefix="c15_wit_")
     try:
-        # C15_texts_ok_necessary_refuted: equal rendered texts within one file + a global suppression of the second finding
+        # the former counterexample of parallel_eq_single (fixed by 243c78e): equal rendered texts within one file + a global
+        # suppression of the second finding; the model says the executors agree (C15_former_texts_witness_agrees)
         open(os.path.join(base, "a.c"), "w").write("int f(int x) {\n  int *p = 0;\n  int z = 0;\n  return *p + x / z;\n}\n")
         open(os.path.join(base, "b.c"), "w").write("int g(int x) { return x; }\n")
         opts = ["--enable=information", "--suppress=zerodiv", "--xml", "--template={file}:{line}:{severity}"]
@@ -483,11 +483,10 @@ def witness_replays(run):
             if out != ref:
                 st["disagreements"] += 1
                 rep = {"files": {"a.c": open(os.path.join(base, "a.c")).read(), "b.c": open(os.path.join(base, "b.c")).read()},
-                       "options": opts, "parallel": par, "j1": ref, "jN": out, "theorem": "C15_texts_ok_necessary_refuted"}
-                if "unmatchedSuppression" in out[0] and "unmatchedSuppression" not in ref[0] and [x for x in out[0] if x != "unmatchedSuppression"] == ref[0]:
-                    run.violation(K_DUP, "a global suppression matching only a finding dropped as a same-text duplicate is reported unmatched under -jN, not under -j1", rep)
-                else:
-                    run.violation("witness:" + sha(repr((ref, out, par))), "texts_ok witness: -j1 %s vs %s %s" % (ref, " ".join(par), out), rep)
+                       "options": opts, "parallel": par, "j1": ref, "jN": out, "theorem": "C15_former_texts_witness_agrees / C15_parallel_eq_single_*"}
+                run.violation("witness:" + sha(repr((ref, out, par))),
+                              "two findings of one file with the same rendered text and a global suppression of the second (fixed by 243c78e): "
+                              "-j1 reports %s, %s reports %s" % (ref, " ".join(par), out), rep)
     finally:
         shutil.rmtree(base, ignore_errors=True)
 
